@@ -306,14 +306,20 @@ CHECKS['C06'] = dict(
          'gather/notifier threads, time-outs at any moment), C06_reject_clean, C06_backpressure_never_waits, '
          'C06_entries_in_flight + C06_slots_returned (no response dropped; backlog zero at rest). Tie: real Server under '
          'the deterministic scheduler, public backlog sampled at every scheduling step, small cases replayed through the '
-         'Lean model; monitors: overshoot, slot leak, waited longer than the timeout (timed-wait accounting).',
-    note=E1 + 'time is not modelled in Lean (wait bound evaluated on the real code only); AsyncServer not driven here.',
+         'Lean model; monitors: overshoot, slot leak, waited longer than the timeout (timed-wait accounting). Second model '
+         '(Model/Wakeup, wait-for-room protocol): C06_wakeup_backlog_le_cap and the C07 wake-up theorems; every case of '
+         'Server and AsyncServer is replayed through drv wakeup (ledger inserts/pops, wait/notify of the server\'s own condition).',
+    note=E1 + 'time is not modelled in Lean (wait bound evaluated on the real code only); the wake-up model counts callers (interchangeable) and does not model __exit__.',
     ref='§5 C06', engine='E1-detsched+lean')
 CHECKS['C07'] = dict(
-    technique='Lean 4 proof (invariants of the ledger LTS with deadline expiry enabled at every step) + schedule-controlled trace refinement with early timer firing',
+    technique='Lean 4 proof (invariants of the ledger LTS with deadline expiry enabled at every step; invariant, measure and quiescence theorem of the wait-for-room LTS) + schedule-controlled trace refinement with early timer firing',
     text='C07_gather_alive (the gather thread never dies, for every position of the cancellation relative to its '
          'check/set steps), C07_outcome_final, C07_cancelled_stays (late result discarded), '
-         'C07_slot_of_abandoned_returned; the unguarded model has a kernel-checked witness of the death (F5). Tie: '
+         'C07_slot_of_abandoned_returned; the unguarded model has a kernel-checked witness of the death (F5). '
+         'Props/C07Wakeup.lean (a caller that gives up waiting for room never costs another caller its wake-up): '
+         'C07_wakeup_under_way, C07_no_caller_left_waiting_for_room, C07_bookkeeping_terminates for the repaired protocol, '
+         'kernel-checked witnesses that the pinned protocol loses the wake-up with threading.Condition and with asyncio (F44). Tie: '
+         'every case is also replayed through drv wakeup (logging ledger dict, wrapped wait/notify of the server\'s condition); '
          'deadlines are virtual and fired early at random points; monitors: gather thread dead, follow-up request '
          'with unbounded deadline unanswered, exit not returning, leaked threads.',
     note=E1 + 'shutdown itself (C07 "still shuts down normally") is exercised by the scenario\'s __exit__ and proved in C11\'s model.',
